@@ -355,3 +355,15 @@ func (x *X) CycleStart(frames []Frame, k int) int {
 	}
 	return lo
 }
+
+// CycleStartOf returns the step at which the render cycle that produced an output write at step began (the latest
+// cycle-begin event before it; 0 if none was recorded).
+func (x *X) CycleStartOf(step int) int {
+	best := 0
+	for _, s := range x.CycleBegin {
+		if s < step && s > best {
+			best = s
+		}
+	}
+	return best
+}
